@@ -752,6 +752,13 @@ class Load11Engine(DeliveryEngine):
             schema = {'classes': cfg['schema']['classes'], 'uniques': cfg['schema']['uniques'],
                       'assocs': [cfg['schema']['assocs'][i] for i in assoc_idx]}
             sch = refstore.Schema(schema)
+            # classes a minimised case no longer mentions are unknown to the loaded model: not asked about
+            present = set()
+            for op in case['ops']:
+                if op.get('t') == 'class':
+                    present.add(cfg['schema']['classes'][op['i']]['kind'].upper())
+                elif op.get('t') == 'row':
+                    present.add(cfg['rows'][op['i']]['kind'].upper())
             # shared referential attributes whose associations disagree make "the" value ambiguous: skip those
             expected = sqlgen.expected_pairs(schema, rows)
             per_rel, per_kind = self.expected_counts(schema, sch, rows, expected)
@@ -782,6 +789,8 @@ class Load11Engine(DeliveryEngine):
                     raise Violation('check', 'check_uniqueness_constraint() = %d, expected %d..%d (%r)' % (got, lo, hi, per_kind),
                                     'check:unique')
                 for kind, (l, h) in sorted(per_kind.items()):
+                    if kind not in present:
+                        continue
                     got = x.check_uniqueness_constraint(m, kind)
                     if not (l <= got <= h):
                         raise Violation('check', 'check_uniqueness_constraint(%s) = %d, expected %d..%d' % (kind, got, l, h),
@@ -809,6 +818,7 @@ class Load11Engine(DeliveryEngine):
                         d.disk.put(path, '\n'.join(order[j::nfiles]) + '\n')
                         paths.append(path)
                     args = list(paths)
+                    c = dict(c, k=[k_ for k_ in c['k'] if k_.upper() in present])
                     for r_ in c['r']:
                         args += [rng.choice(['-r', '-R']), str(r_)]
                     for k_ in c['k']:
